@@ -324,18 +324,24 @@ impl World {
     }
 
     /// names a word found for a row (or a former holder of its slot) that no longer has it: the write that
-    /// should have removed it
-    fn name_stale(hist: &[Ver], t: u64, former: bool) -> Option<&'static str> {
+    /// should have removed it. The second component tells whether the word can have been indexed by these versions
+    /// at all (one of the consecutive versions that had it was written with the index on).
+    fn name_stale(hist: &[Ver], t: u64, former: bool) -> Option<(&'static str, bool)> {
         let i = hist.iter().rposition(|v| v.words.contains(&t))?;
+        let run_start = hist[..=i].iter().rposition(|v| !v.words.contains(&t)).map(|k| k + 1).unwrap_or(0);
+        let indexed = hist[run_start..=i].iter().any(|v| matches!(v.how, How::LocalOn | How::IngestedOn));
         if i + 1 == hist.len() {
             // the last text of a former holder of the slot: its deletion left it
-            return if former { Some("stale-hit-through-reused-slot") } else { None };
+            return if former { Some(("stale-hit-through-reused-slot", indexed)) } else { None };
         }
-        Some(match hist[i + 1].how {
-            How::IngestedOn => "stale-hit-after-synchronised-update",
-            How::LocalOff | How::IngestedOff => "stale-hit-after-write-while-index-off",
-            How::LocalOn => "stale-hit",
-        })
+        Some((
+            match hist[i + 1].how {
+                How::IngestedOn => "stale-hit-after-synchronised-update",
+                How::LocalOff | How::IngestedOff => "stale-hit-after-write-while-index-off",
+                How::LocalOn => "stale-hit",
+            },
+            indexed,
+        ))
     }
 
     fn classify(&self, s: usize, e: u64, t: u64, hits: &[u64], expect: &[u64]) -> Vec<(String, String)> {
@@ -343,12 +349,22 @@ impl World {
         let site = &self.sites[s];
         let word = &word(t);
         for n in hits.iter().filter(|n| !expect.contains(n)) {
+            // the entry stems from an earlier text of the row itself, or from a former holder of its slot: the
+            // explanation in which the word was really indexed wins, the row's own history first
             let own = site.hist.get(n).and_then(|h| Self::name_stale(h, t, false));
-            let former = || {
-                let prev = site.slot_of.get(n).and_then(|slot| site.slot_prev.get(slot))?;
-                prev.iter().rev().find_map(|h| Self::name_stale(h, t, true))
-            };
-            let sig = own.or_else(former).unwrap_or("stale-hit");
+            let former: Vec<(&'static str, bool)> = site
+                .slot_of
+                .get(n)
+                .and_then(|slot| site.slot_prev.get(slot))
+                .map(|prev| prev.iter().rev().filter_map(|h| Self::name_stale(h, t, true)).collect())
+                .unwrap_or_default();
+            let sig = own
+                .filter(|x| x.1)
+                .or_else(|| former.iter().find(|x| x.1).copied())
+                .or(own)
+                .or_else(|| former.first().copied())
+                .map(|x| x.0)
+                .unwrap_or("stale-hit");
             res.push((sig.to_string(), format!("site {} entity {} search '{}' returned row {} whose current text does not contain it", s, e, word, n)));
         }
         for n in expect.iter().filter(|n| !hits.contains(n)) {
